@@ -84,6 +84,7 @@ func init() {
 	noop := func(ctx *Ctx, c Cmd, ev Ev) {}
 	register("asm.amd64", noop)
 	register("asm.arm64", noop)
+	register("asm.arm64imm", noop)
 }
 
 func init() {
